@@ -123,11 +123,13 @@ def _kept(attrs, defines):
 
 
 def project_final(db):
-    """the matrix dbc.load returns: names, senders, receivers, comments, attributes that are neither carriers nor of an ENUM type"""
+    """the matrix dbc.load returns: names, cycle times, senders, receivers, comments, attributes that are neither carriers nor of an ENUM type"""
     def sig(s):
-        return {"name": s.name, "receivers": list(s.receivers), "attrs": _kept(s.attributes, db.signal_defines), "comment": _txt(s.comment)}
+        return {"name": s.name, "cycle": int(s.cycle_time), "receivers": list(s.receivers), "attrs": _kept(s.attributes, db.signal_defines),
+                "comment": _txt(s.comment)}
     return {"ecus": [e.name for e in db.ecus],
-            "frames": [{"id": int(f.arbitration_id.id), "ext": bool(f.arbitration_id.extended), "name": f.name, "tx": list(f.transmitters),
+            "frames": [{"id": int(f.arbitration_id.id), "ext": bool(f.arbitration_id.extended), "name": f.name, "cycle": int(f.cycle_time),
+                        "tx": list(f.transmitters),
                         "rx": list(f.receivers), "attrs": _kept(f.attributes, db.frame_defines), "comment": _txt(f.comment),
                         "sigs": [sig(s) for s in f.signals]} for f in db.frames],
             "free": [sig(s) for s in db.signals],
